@@ -315,6 +315,27 @@ func c18Run(c c18Case) error {
 	return nil
 }
 
+// onlyFrom keeps the sets whose characters all come from pool.
+func onlyFrom(sets []string, pool []string) []string {
+	ok := map[string]bool{}
+	for _, p := range pool {
+		ok[p] = true
+	}
+	var out []string
+	for _, set := range sets {
+		good := true
+		for _, ch := range oracle.Chars(set) {
+			if !ok[ch] {
+				good = false
+			}
+		}
+		if good {
+			out = append(out, set)
+		}
+	}
+	return out
+}
+
 func trunc(s string, n int) string {
 	if len(s) > n {
 		return s[:n] + "..."
@@ -340,6 +361,13 @@ func c18Gen(t *rapid.T) c18Case {
 		nodigits := ^(oracle.Digits | oracle.Ambiguous)
 		sp.Allow &= nodigits
 		sp.Require &= nodigits
+		var keep []string
+		for _, set := range sp.RequireSets {
+			if !strings.ContainsAny(set, "0123456789") {
+				keep = append(keep, set)
+			}
+		}
+		sp.RequireSets = keep
 		c.Char = &sp
 		c.AllFail = rapid.IntRange(0, 3).Draw(t, "allfail") == 0
 	} else {
@@ -355,6 +383,7 @@ func c18Gen(t *rapid.T) c18Case {
 		default:
 			r := gen.CharSpec(t, gen.CharOpts{MaxLen: 3, MaxReq: 1, Small: true, Pool: c18Chars, NoHiBits: true})
 			r.Allow, r.Require, r.Exclude = 0, 0, 0
+			r.RequireSets = onlyFrom(r.RequireSets, c18Chars) // no class strings: short separators must not collide with diagnostic text
 			if r.AllowChars == "" {
 				r.AllowChars = "QJ"
 			}
